@@ -32,6 +32,7 @@ type c11Case struct {
 	Sets   []c11Set `json:"sets"`
 	Names  []string `json:"names"`  // hex, as given to MatchDomainBitmap
 	ONames []string `json:"onames"` // hex, the names the oracles are asked about (normalised by the orchestrator)
+	AcSets []c11Set `json:"acsets"` // per bit index the keyword list the model hands to the automaton (oracle queries)
 }
 
 type c11AcOracle struct {
@@ -89,16 +90,14 @@ func c11Run(c *c11Case) (res c11Result) {
 	// oracles first (independent objects)
 	acPats := map[int][][]byte{}
 	acOrder := []int{}
+	for _, s := range c.AcSets {
+		acOrder = append(acOrder, s.Idx)
+		for _, p := range s.Pats {
+			acPats[s.Idx] = append(acPats[s.Idx], []byte(c11Unhex(p)))
+		}
+	}
 	for _, s := range c.Sets {
-		switch s.Kind {
-		case "keyword":
-			if _, ok := acPats[s.Idx]; !ok {
-				acOrder = append(acOrder, s.Idx)
-			}
-			for _, p := range s.Pats {
-				acPats[s.Idx] = append(acPats[s.Idx], []byte(c11Unhex(p)))
-			}
-		case "regex":
+		if s.Kind == "regex" {
 			for _, p := range s.Pats {
 				o := c11RxOracle{Pat: p}
 				r, err := regexp.Compile(c11Unhex(p))
